@@ -25,6 +25,7 @@ func init() {
 			"R5": "next-BB scan shape, call-site arguments, store at settlement, reset at continue",
 			"R6": "seat publication pairing (no cross-wiring)",
 			"R7": "the dead dealer/SB label skip is not conditioned on the seat being occupied",
+			"R9": "the dealt-in flags (which decide who gets a label) are copied from the seat manager's eligibility, for every player, after this hand's rotation (shared with C05.R1)",
 			"R8": "label assignment pairing: the head of the remaining label list goes to the eligible player of the next seat counted from the seat manager's BB seat, found through an id→index map of the same player list",
 		},
 		Assumptions: []string{},
@@ -51,6 +52,8 @@ func constIntOf(info *types.Info, e ast.Expr) (int64, bool) {
 func checkC06(c *Ctx) {
 	p := c.P
 	lc := p.lifecycle()
+	// R9: who gets a label is decided by the dealt-in flags; they must be this hand's
+	checkDealtInCopy(c, "R9")
 	// position updater: writes non-empty labels to players (non-local store whose value is not an empty slice)
 	var updater *ssa.Function
 	nW := 0
